@@ -13,7 +13,8 @@ def _funcs(ukind, fkind, op):
     f_cls = FACTOR_CLS[fkind]
     base = {"general": "factor.ConjugateFactor", "rank-one": "factor.OneRankFactor", "linear": "factor.LinearFactor",
             "constant": "factor.ConstantFactor"}.get(fkind, "factor.ConjugateFactor")
-    fs = [f"{u_cls}.__post_init__", f"{f_cls}.__post_init__", "factor.ConjugateFactor.evaluate_ln",
+    fs = [f"{u_cls}.__post_init__", f"{f_cls}.__post_init__", "factor.ConjugateFactor.evaluate_ln", "factor.ConjugateFactor.evaluate",
+          "factor.ConjugateFactor.__call__",
           "measure.GaussianMeasure.__post_init__"]
     if op in ("multiply", "mul"):
         fs += ["measure.GaussianMeasure.multiply", f"{base}._multiply_with_measure"]
@@ -50,6 +51,7 @@ def _mk_binary(ukind, fkind, op, R1, R2, update_full):
             spec = lu + lf
         w.equal("value", val, spec)
         w.equal("value/exp", res.evaluate(x), xp.exp(spec))
+        w.equal("value/__call__", res(x), xp.exp(spec))
         ok, why = unchanged(u, su)
         w.check("frame/measure-unchanged", ok, why)
         ok, why = unchanged(f, sf)
